@@ -192,7 +192,9 @@ class C12(Scenario):
                 u = {"k": "noise", "n": ni, "op": qop}
                 if arm == "faulty-noise" and qop[0] in ("call", "meth") and rng.random() < 0.25:
                     if rng.random() < 0.7:
-                        u["op"] = ["fault", "interrupt", int(10 ** rng.uniform(0, 4.5)), qop]
+                        # constructors execute few UFL lines, algorithms many
+                        hi = 4.5 if "algorithms" in str(qop[2]) or "sim.ops" in str(qop[2]) or "derivative" in str(qop[2]) else 1.7
+                        u["op"] = ["fault", "interrupt", int(10 ** rng.uniform(0, hi)), qop]
                     else:
                         u["op"] = ["fault", "stack", rng.choice([4, 8, 15, 30, 60, 120]), qop]
                 pos = 0 if prelude else rng.randint(0, npos)
